@@ -234,7 +234,7 @@ class ProgGen:
             choices += ["index", "index"]
         if "core" in self.features:
             # the fragment of Model/BitSem.lean
-            choices = ["if", "block"] + (["match"] if "match" in self.features else []) + (["cmp", "cmp", "eq", "logic", "logic", "not", "castbool"] if k == "bool" else ["arith", "arith", "arith", "cast", "shift"] + (["unary"] if signed(ty) else []))
+            choices = ["if", "block"] + (["match"] if "match" in self.features else []) + (["cmp", "cmp", "eq", "logic", "logic", "not", "castbool"] if k == "bool" else ["arith", "arith", "arith", "bit", "cast", "shift"] + (["unary"] if signed(ty) else []))
         elif k == "bool":
             choices += ["cmp", "cmp", "eq", "logic", "logic", "not", "castbool"]
         elif k == "int":
@@ -399,7 +399,7 @@ class ProgGen:
             i = self.expr(USIZE, d - 1, pure)
             if self.rng.random() < 0.7:
                 i = self.binop("%", USIZE, i, self.val_expr(USIZE, at["n"]))
-        return E(f"{a.at(13)}[{i.text}]", ["index", a.ast, i.ast])
+        return E(f"{a.at(13)}[{self.index_text(i)}]", ["index", a.ast, i.ast])
 
     def e_call(self, ty, d, pure):
         h = self.rng.choice([h for h in self.helpers if h["ret"] == ty])
@@ -513,8 +513,35 @@ class ProgGen:
 
     def arms(self, sty, n_refutable):
         """patterns of a match on `sty`, ending with a catch-all"""
+        if sty["k"] in ("bool", "int") and self.rng.random() < 0.3:
+            return self.covering_arms(sty)
         pats = [self.refutable(sty) for _ in range(n_refutable)]
         pats.append(self.irrefutable(sty, 0, self.rng.random() < 0.5))
+        return pats
+
+    def covering_arms(self, sty):
+        """arms without a catch-all that cover a scalar type: `true` / `false`, or ranges that partition the integers"""
+        self.note("match-covering-without-catch-all")
+        if sty["k"] == "bool":
+            pats = [("true", ["bool", True], []), ("false", ["bool", False], [])]
+        else:
+            lo, hi = T.int_range(sty["t"])
+            t = sty["t"]
+            cuts = sorted(set(self.rng.choice([lo + 1, 0, 1, 2, 10, 100, hi - 1, hi, (lo + hi) // 2, -1, -100]) for _ in range(self.rng.choice([1, 2, 3]))))
+            cuts = [c for c in cuts if lo < c <= hi]
+            bounds = [lo] + cuts + [hi + 1]
+            pats = []
+            for a, b in zip(bounds, bounds[1:]):
+                b -= 1
+                if a == b and self.rng.random() < 0.7:
+                    pats.append((f"{a}{t}", ["int", a], []))
+                elif b < hi and self.rng.random() < 0.5:
+                    pats.append((f"{a}{t}..{b + 1}{t}", ["range", a, b], []))
+                else:
+                    pats.append((f"{a}{t}..={b}{t}", ["range", a, b], []))
+        self.rng.shuffle(pats)
+        if self.rng.random() < 0.3:
+            pats.insert(self.rng.randrange(len(pats)), self.refutable(sty))      # a redundant arm in between
         return pats
 
     def matchable(self, ty):
@@ -612,7 +639,7 @@ class ProgGen:
         else:
             j = self.val_expr(USIZE, self.rng.randrange(m + 1))
         e = self.expr(ty["elem"]["elem"], d - 1, True)
-        text, ast = f"{name}[{i.text}][{j.text}] = {e.text};", ["assign", name, [["i", i.ast], ["i", j.ast]], e.ast]
+        text, ast = f"{name}[{self.index_text(i)}][{self.index_text(j)}] = {e.text};", ["assign", name, [["i", i.ast], ["i", j.ast]], e.ast]
         if pre is None:
             return text, ast
         return "{ " + pre[0] + " " + text + " }", ["expr", ["block", [pre[1], ast]]]
@@ -670,7 +697,7 @@ class ProgGen:
                     oob = True
                 else:
                     i = self.binop("%", USIZE, self.expr(USIZE, d - 1, True), self.val_expr(USIZE, ty["n"]))
-                text += f"[{i.text}]"
+                text += f"[{self.index_text(i)}]"
                 path.append(["i", i.ast])
                 ty = ty["elem"]
             elif k == "tuple" and ty["ts"]:
@@ -686,6 +713,12 @@ class ProgGen:
             else:
                 break
         return text, path, ty
+
+    @staticmethod
+    def index_text(i):
+        """`a[1 + x]` is a parse error (after `[` a number without suffix is read as a constant index and `]` must
+        follow); `a[(1 + x)]` is fine"""
+        return f"({i.text})" if re.match(r"\d+ ", i.text) else i.text
 
     def failing_usize(self, d):
         """a usize expression that fails (or is likely to) when it is evaluated"""
@@ -712,7 +745,7 @@ class ProgGen:
         e = self.expr(ty, d, True)
         ops = []
         if is_int(ty):
-            ops = ["+", "-", "*", "/", "%", "<<", ">>"] if "core" in self.features else ["+", "-", "*", "/", "%", "^", "&", "|", "<<", ">>"]
+            ops = ["+", "-", "*", "/", "%", "<<", ">>", "^", "&", "|"] if "core" in self.features else ["+", "-", "*", "/", "%", "^", "&", "|", "<<", ">>"]
         elif ty["k"] == "bool":
             ops = ["^", "&", "|"]
         if ops and self.rng.random() < 0.4:
